@@ -72,7 +72,7 @@ def judge(c, calls, scen_by_id, name="outcome-contract"):
                 bad = [x for _, _, x in c2.rec if x["outcome"] not in ("value", "error") or x["alloc"] > 33554432 + 64 * x["len"] or x["ms"] > 3000 + 20 * (x["len"] // 1024) or x.get("read", 0) > 65536 + 8 * x["len"] or x.get("retained", 0) > 2097152]
                 return bool(bad)
             try:
-                c.reproduce(fam, sid, still_bad, env=env_of())
+                c.reproduce(fam, sid, still_bad, env=env_of(), strict=True)
             except vf.FrameworkError:
                 if rec["outcome"] in ("value", "error") and cls == "time":
                     # a wall-clock excess that does not show again on a fresh worker was the machine (load), not the library: neither a verdict nor a framework problem
